@@ -5,7 +5,8 @@
    input", and the executable specifications are not ad-hoc test oracles but corollaries of coq/props. *)
 From UL Require Import Bytes Subtags LangId Ext Grammar LangIdSpec LocaleInv AbstractLocale LocaleSpec Canonical CanonLocale Prefix
                        BytesProofs SubtagProofs SplitProofs LangIdProofs LangIdAlgebra CanonProofs ExtProofs RoundTrip InvProofs
-                       LocaleSpecProofs LengthProofs LocaleLength CanonLocaleProofs StringLevel PrefixProofs Oracle.
+                       LocaleSpecProofs LengthProofs LocaleLength CanonLocaleProofs StringLevel PrefixProofs LocaleOrd LocaleAlgebra Likely Inst Ops
+                       TablesData OpsInvProofs RefineProofs Oracle.
 From Coq Require Import String Lia.
 Open Scope N_scope.
 
@@ -155,4 +156,128 @@ Proof.
   assert (SET : forall y, In y vs <-> In y (rev vs ++ firstn 1 (rev vs))).
   { intros y. rewrite in_app_iff, <- in_rev. split; [auto|]. intros [Hy|Hy]; [exact Hy|]. apply in_rev. destruct (rev vs) as [|h tl]; [destruct Hy|]. cbn [firstn] in Hy. destruct Hy as [<-|[]]. left; reflexivity. }
   rewrite <- (from_parts_any_order l s0 rg vs _ SET), F, li_eqb_refl. reflexivity.
+Qed.
+
+
+(* ---------------------------------------------------------------- locales (C03, C05, C10, C11, C12, C13, C17) *)
+Lemma op_ne op s1 s2 : beqb op (bs s1) = true -> bs s1 <> bs s2 -> beqb op (bs s2) = false.
+Proof. intros E N. apply beqb_eq in E. subst op. apply beqb_false. exact N. Qed.
+Ltac ne := let H := fresh in intro H; vm_compute in H; discriminate H.
+Ltac only_op E :=
+  repeat match goal with
+         | |- context [beqb ?op (bs ?s)] => first [rewrite E | rewrite (op_ne op _ s E ltac:(ne))]
+         end; lazy iota.
+
+Lemma ok_not_panic x : beqb (bs "OK " ++ x) (bs "PANIC") = false.
+Proof. reflexivity. Qed.
+Lemma loc_eqb_refl l : loc_eqb l l = true.
+Proof. apply loc_eqb_iff. reflexivity. Qed.
+Lemma model_reparse_same l : loc_inv l = true -> model_reparse l = bs "same".
+Proof. intros H. unfold model_reparse. rewrite (locale_roundtrip l H), loc_eqb_refl. reflexivity. Qed.
+
+Lemma accepted a v : spec_locale_zone (split a) = MustAccept v -> locale_from_bytes a = Ok v /\ loc_inv v = true.
+Proof. intros Z. pose proof (locale_complete a v Z) as P. split; [exact P|exact (locale_parse_inv _ _ P)]. Qed.
+
+(* histories: the reference transcript of the abstract set / multiset / map machine IS the model's transcript *)
+Lemma hist_same l0 ops : loc_inv l0 = true ->
+  match run the_tables l0 ops with
+  | Some steps => join_with sep_hist (map (fun p => fmt_step (fst p) (snd p)) steps)
+  | None => bs "UNSPEC"
+  end
+  = join_with sep_hist
+      (map (fun p => let l := normalize (fst p) in fmt_out (snd p) ++ sp ++ fmt_locale l ++ sp ++ bs "same")
+           (arun the_tables (abstract l0) ops)).
+Proof.
+  intros H. destruct (normalize_abstract l0 H) as [E Hok].
+  pose proof (refine_run the_tables ops (abstract l0) Hok) as R. rewrite E in R. rewrite R.
+  pose proof (run_inv the_tables data_full_extend data_wf_ints ops l0 _ H R) as Inv.
+  f_equal. rewrite map_map. rewrite forallb_forall in Inv.
+  apply map_ext_in. intros p Hp. cbn [fst snd]. unfold fmt_step.
+  assert (I : loc_inv (normalize (fst p)) = true).
+  { apply (Inv (normalize (fst p), snd p)). apply in_map_iff. exists p. split; [reflexivity|exact Hp]. }
+  rewrite (model_reparse_same _ I). reflexivity.
+Qed.
+
+Theorem locale_group_sound op args r : oracle_model_locale op args = Some r ->
+  beqb op (bs "loc_canonicalize") = false -> beqb op (bs "loc_meta") = false -> beqb op (bs "li_meta") = false ->
+  passes (oracle_spec_locale op args r).
+Proof.
+  unfold oracle_model_locale, oracle_spec_locale. intros H X1 X2 X3. set (a := arg1 args) in *.
+  destruct (beqb op (bs "locale")) eqn:E1.
+  { apply some_inj in H; subst r. only_op E1. unfold passes, spec_locale_ok.
+    destruct (locale_from_bytes_total a) as [[l P]|[e P]]; rewrite P; cbn [fmt_res_e].
+    - pose proof (locale_sound a l P) as S. destruct (spec_locale_zone (split a)); try subst v.
+      + apply beqb_refl.
+      + rewrite beqb_refl. apply orb_true_r.
+      + destruct S.
+      + rewrite ok_not_panic. reflexivity.
+    - destruct (spec_locale_zone (split a)) eqn:Z; try reflexivity.
+      rewrite (locale_complete a v Z) in P. discriminate. }
+  rewrite X1 in H.
+  destruct (beqb op (bs "loc_roundtrip")) eqn:E3.
+  { apply some_inj in H; subst r. only_op E3. unfold passes.
+    destruct (locale_from_bytes_total a) as [[l P]|[e P]]; rewrite P; [|reflexivity].
+    rewrite (model_reparse_same _ (locale_parse_inv _ _ P)). reflexivity. }
+  destruct (beqb op (bs "extmap")) eqn:E4. { only_op E4. exact I. }
+  destruct (beqb op (bs "ext_type")) eqn:E5. { only_op E5. exact I. }
+  destruct (beqb op (bs "loc_hist")) eqn:E6.
+  { apply some_inj in H; subst r. only_op E6. unfold passes, model_hist, spec_hist.
+    destruct args as [|st rest]; [reflexivity|]. destruct (start_of st) as [l0|] eqn:S; [|reflexivity].
+    assert (I0 : loc_inv l0 = true).
+    { unfold start_of in S. destruct st as [|c st']; [injection S as <-; reflexivity|].
+      destruct (locale_from_bytes (c :: st')) as [l| | |] eqn:P; try discriminate. injection S as <-. exact (locale_parse_inv _ _ P). }
+    rewrite (hist_same l0 _ I0), beqb_refl. reflexivity. }
+  destruct (beqb op (bs "both")) eqn:E7.
+  { apply some_inj in H; subst r. only_op E7. unfold passes. rewrite langid_from_bytes_spec.
+    destruct (spec_langid (split a)) as [v|] eqn:S; [|reflexivity].
+    destruct (parsed_inv _ _ S) as [P _]. rewrite (locale_embeds_langid a v P). cbn [loc_id loc_ext].
+    rewrite li_eqb_refl. cbn [andb].
+    assert (T : loc_to_string (mkLoc v extmap_default) = li_to_string v).
+    { unfold loc_to_string, loc_tokens, li_to_string. cbn. rewrite app_nil_r. reflexivity. }
+    rewrite T, beqb_refl. reflexivity. }
+  destruct (beqb op (bs "loc_prefix")) eqn:E8.
+  { apply some_inj in H; subst r. only_op E8. unfold passes.
+    destruct (spec_locale_zone (split a)) eqn:Z; try reflexivity.
+    destruct (locale_id_before_single a v Z) as [P Q]. rewrite P, Q, li_eqb_refl, beqb_refl. reflexivity. }
+  destruct (beqb op (bs "loc_conv")) eqn:E9. { only_op E9. exact I. }
+  destruct (beqb op (bs "loc_into_parts")) eqn:E10.
+  { apply some_inj in H; subst r. only_op E10. unfold passes.
+    destruct (locale_from_bytes_total a) as [[l P]|[e P]]; rewrite P; [|reflexivity].
+    pose proof (locale_parse_inv _ _ P) as I. pose proof I as I'. unfold loc_inv in I'. apply andb_true_iff in I' as [Hi He].
+    pose proof (from_parts_into_parts (loc_id l) Hi) as F.
+    destruct (li_into_parts (loc_id l)) as [[[lg sc] rg] vs]. rewrite (extmap_roundtrip _ He).
+    unfold loc_from_parts. rewrite F. destruct l as [i e]. cbn [loc_id loc_ext]. rewrite loc_eqb_refl. reflexivity. }
+  destruct (beqb op (bs "loc_built")) eqn:E11.
+  { apply some_inj in H; subst r. only_op E11. unfold passes. rewrite langid_from_bytes_spec.
+    assert (SJ : spec_langid (split (join (before_single (split a)))) = spec_langid (before_single (split a))).
+    { destruct (before_single (split a)) as [|t0 ts] eqn:B; [reflexivity|].
+      rewrite split_join; [reflexivity|discriminate|].
+      assert (SUB : forall toks, forallb nosep toks = true -> forallb nosep (before_single toks) = true).
+      { induction toks as [|t toks IH]; [reflexivity|]. cbn [forallb before_single]. intros Hn. apply andb_true_iff in Hn as [A B'].
+        destruct (is_single t); [reflexivity|]. cbn [forallb]. rewrite A, (IH B'). reflexivity. }
+      rewrite <- B. apply SUB. apply split_nosep_all. }
+    rewrite SJ. destruct (spec_langid (before_single (split a))); apply beqb_refl. }
+  destruct (beqb op (bs "big")) eqn:E12.
+  { apply some_inj in H; subst r. only_op E12. reflexivity. }
+  destruct (beqb op (bs "facade")) eqn:E13. { only_op E13. exact I. }
+  rewrite X2, X3 in H.
+  destruct (beqb op (bs "loc_matches")) eqn:E14.
+  { apply some_inj in H; subst r. only_op E14. unfold passes.
+    destruct (spec_locale_zone (split (arg_n 0 args))) eqn:Z0; try reflexivity.
+    destruct (spec_locale_zone (split (arg_n 1 args))) eqn:Z1; try reflexivity.
+    rewrite (proj1 (accepted _ _ Z0)), (proj1 (accepted _ _ Z1)), spec_li_matches_is. cbv zeta.
+    unfold loc_matches. destruct (e_private (loc_ext v)), (e_private (loc_ext v0)); cbn [nil_b negb orb]; apply beqb_refl. }
+  destruct (beqb op (bs "loc_cmp")) eqn:E15; [|discriminate].
+  apply some_inj in H; subst r. only_op E15. unfold passes.
+  destruct (spec_locale_zone (split (arg_n 0 args))) as [x| | |] eqn:Z0; try reflexivity.
+  destruct (spec_locale_zone (split (arg_n 1 args))) as [y| | |] eqn:Z1; try reflexivity.
+  destruct (accepted _ _ Z0) as [P0 I0]. destruct (accepted _ _ Z1) as [P1 I1]. rewrite P0, P1. cbv zeta.
+  assert (EQ : loc_eqb x y = beqb (loc_to_string x) (loc_to_string y)).
+  { destruct (loc_eqb x y) eqn:A; destruct (beqb (loc_to_string x) (loc_to_string y)) eqn:B; try reflexivity.
+    - apply (loc_eq_iff_string x y I0 I1) in A. apply beqb_false in B. congruence.
+    - apply beqb_eq in B. apply (loc_eq_iff_string x y I0 I1) in B. congruence. }
+  rewrite EQ, beqb_refl. cbn [andb]. rewrite <- EQ.
+  destruct (loc_eqb x y) eqn:A.
+  - apply loc_eqb_iff in A. subst y. rewrite (proj2 (loc_cmp_eq x x) eq_refl). reflexivity.
+  - destruct (loc_cmp x y) eqn:C; try reflexivity. apply loc_cmp_eq in C. subst y. rewrite loc_eqb_refl in A. discriminate.
 Qed.
